@@ -158,6 +158,12 @@ def errMsg : Err → String
   | .dedupHll => "parse_dedup_counter_hll:_unsupported_element"
   | .dedupHllInvalid => "parse_dedup_counter_hll:_invalid_YSON"
   | .dedupValue => "parse_dedup_counter_value:_invalid_YSON"
+  | .parseInt => "parse_int:_invalid_YSON"
+  | .parseLong => "parse_long:_invalid_YSON"
+  | .parseTextNode => "parse_text_node:_invalid_YSON"
+  | .parseTextAttribute => "parse_text_attribute:_invalid_YSON"
+  | .parseTreeAttribute => "parse_tree_attribute:_invalid_YSON"
+  | .parseTreeNode => "parse_tree_node:_invalid_YSON"
 
 def tyName : GoTy → String
   | .nil => "nil" | .bool => "bool" | .float64 => "float64" | .string => "string" | .map => "map" | .slice => "slice"
